@@ -588,3 +588,84 @@ def custom_unpack(norb=3, nchol=2):
                 o["replayed"] = bool(d > 1e-10)
                 o["witness"] = dict(o.get("witness") or {}, native=dict(max_abs_deviation=d))
     return out
+
+
+# ------------------------------------------------------------------------------------------------ trial hand-over in the reader
+def io_trial(norb=3, nelec_sp=(2, 1)):
+    """C16.io.trial.<option>: the reader's own statements that turn mo_coeff.npz / amplitudes.npz into wave_data (extracted by AST position and
+    executed on tagged arrays): the rhf / uhf trial orbitals are the leading n_s columns of spin block s of the written coefficients, rdm1[s] is
+    their projector, cisd / ucisd receive the equally named amplitude arrays and (ucisd) the full coefficient blocks; the trial object has the
+    class, norb and (n_up, n_dn) of the option."""
+    t0 = time.time()
+    import sys
+    if sys.path[0] != REPO:
+        sys.path.insert(0, REPO)
+    from ad_afqmc import wavefunctions
+    r = _fn(MJ, "_prep_afqmc")
+    stmts = []
+    for node in r.body:
+        if isinstance(node, ast.Assign):
+            tgt = ast.unparse(node.targets[0])
+            if tgt in ("wave_data", "mo_coeff") or tgt.startswith("wave_data["):
+                stmts.append(node)
+        elif isinstance(node, ast.If) and ast.unparse(node.test).startswith("options['trial'] =="):
+            stmts.append(node)
+    if len(stmts) < 4:
+        return [ob("C16.io.trial", UNDECIDED, kind="bounded", detail=f"only {len(stmts)} wave_data statements found in the reader", functions=[FNS[2]])]
+    out = []
+    for opt, cls in (("rhf", "rhf"), ("uhf", "uhf"), ("cisd", "cisd"), ("ucisd", "ucisd")):
+        nelec_o = (nelec_sp[0], nelec_sp[0]) if opt in ("rhf", "cisd") else tuple(nelec_sp)      # rhf / cisd trials are closed shell
+        nu, nd = nelec_o
+        M = 10.0 + np.arange(2 * norb * norb, dtype=float).reshape(2, norb, norb)
+        M[1] += 0.5
+        amps = dict(ci1=100.0 + np.arange(nu * (norb - nu), dtype=float).reshape(nu, norb - nu), ci2=200.0 + np.arange((nu * (norb - nu)) ** 2, dtype=float).reshape(nu, norb - nu, nu, norb - nu),
+                    ci1a=300.0 + np.zeros((nu, norb - nu)), ci1b=400.0 + np.zeros((nd, norb - nd)), ci2aa=500.0 + np.zeros((nu, norb - nu, nu, norb - nu)),
+                    ci2ab=600.0 + np.zeros((nu, norb - nu, nd, norb - nd)), ci2bb=700.0 + np.zeros((nd, norb - nd, nd, norb - nd)))
+        files = {"mo_coeff.npz": dict(mo_coeff=M), "amplitudes.npz": amps}
+
+        class NP:
+            def __getattr__(self, k):
+                return getattr(np, k)
+
+            @staticmethod
+            def load(name):
+                return files[name]
+        ns = dict(np=NP(), jnp=np, wavefunctions=wavefunctions, options=dict(trial=opt, n_batch=1), nelec_sp=nelec_o, norb=norb, rank=1, print=lambda *a, **k: None)
+        mod = ast.Module([copy.deepcopy(s) for s in stmts], [])
+        ast.fix_missing_locations(mod)
+        name = f"C16.io.trial.{opt}[norb={norb}]"
+        try:
+            exec(compile(mod, REPO + "/ad_afqmc/mpi_jax.py", "exec"), ns)
+        except Exception as e:   # noqa
+            out.append(ob(name, REFUTED, kind="bounded", backend="concrete-exec(tagged)", functions=[FNS[2]], replayed=True, witness_class="raises",
+                          detail=f"the reader's wave_data statements raise {type(e).__name__}: {e}", witness=dict(error=repr(e)[:200])))
+            continue
+        wd, trial = ns["wave_data"], ns.get("trial")
+        bad = []
+        occ = [M[0][:, :nu], M[1][:, :nd]]
+        rd = np.asarray(wd["rdm1"])
+        for s_ in range(2):
+            if not np.array_equal(rd[s_], occ[s_] @ occ[s_].T):
+                bad.append(f"rdm1[{s_}] is not the projector on the leading n_{'ud'[s_]} columns of block {s_}")
+        if type(trial).__name__ != cls or getattr(trial, "norb", None) != norb or tuple(getattr(trial, "nelec", ())) != tuple(nelec_o):
+            bad.append(f"trial object {type(trial).__name__}(norb={getattr(trial, 'norb', None)}, nelec={getattr(trial, 'nelec', None)})")
+        if opt == "rhf" and not np.array_equal(np.asarray(wd["mo_coeff"]), occ[0]):
+            bad.append("rhf mo_coeff is not M[0][:, :n_up]")
+        if opt == "uhf":
+            for s_ in range(2):
+                if not np.array_equal(np.asarray(wd["mo_coeff"][s_]), occ[s_]):
+                    bad.append(f"uhf mo_coeff[{s_}] is not M[{s_}][:, :n_{'ud'[s_]}]")
+        if opt == "cisd":
+            for k in ("ci1", "ci2"):
+                if not np.array_equal(np.asarray(wd[k]), amps[k]):
+                    bad.append(f"wave_data[{k!r}] is not amplitudes[{k!r}]")
+        if opt == "ucisd":
+            for k, f in (("ci1A", "ci1a"), ("ci1B", "ci1b"), ("ci2AA", "ci2aa"), ("ci2AB", "ci2ab"), ("ci2BB", "ci2bb")):
+                if not np.array_equal(np.asarray(wd[k]), amps[f]):
+                    bad.append(f"wave_data[{k!r}] is not amplitudes[{f!r}]")
+            if not np.array_equal(np.asarray(wd["mo_coeff"]), M):
+                bad.append("ucisd mo_coeff is not the full written coefficient array")
+        out.append(ob(name, REFUTED if bad else DISCHARGED, kind="bounded", backend="concrete-exec(tagged)", wall=time.time() - t0, functions=[FNS[2]], replayed=bool(bad),
+                      witness=dict(mismatch=bad[:4]) if bad else None, witness_class="trial-hand-over" if bad else "",
+                      detail=(f"{len(stmts)} extracted statements, option trial={opt!r}, norb={norb}, (n_up, n_dn)={tuple(nelec_o)}: " + ("; ".join(bad[:3]) if bad else "orbitals / amplitudes / rdm1 / trial object as specified"))))
+    return out
